@@ -112,14 +112,14 @@ FIELDS = {
     'Default': {'subcon': Sub(), 'value': Param('dyn')},
     'Check': {'func': Param('dyn')},
     'Error': {},
-    'FocusedSeq': {'subcons': SubList(), '_subcons': Opaque(), 'parsebuildfrom': Param('str')},
-    'Union': {'subcons': SubList(), '_subcons': Opaque(), 'parsefrom': Param('dyn')},
+    'FocusedSeq': {'subcons': SubList(), '_subcons': Opaque(), 'parsebuildfrom': Param('membername')},
+    'Union': {'subcons': SubList(), '_subcons': Opaque(), 'parsefrom': Param('unionfrom')},
     'Select': {'subcons': SubList()},
     'IfThenElse': {'condfunc': Param('dyn'), 'thensubcon': Sub(), 'elsesubcon': Sub()},
     'Switch': {'keyfunc': Param('hashable'), 'cases': Map('sub'), 'default': Sub()},
     'StopIf': {'condfunc': Param('dyn')},
     'Padded': {'subcon': Sub(), 'length': Param('int'), 'pattern': Bytes1()},
-    'Aligned': {'subcon': Sub(), 'modulus': Param('int'), 'pattern': Bytes1()},
+    'Aligned': {'subcon': Sub(), 'modulus': Param('modulus'), 'pattern': Bytes1()},
     'Pointer': {'subcon': Sub(), 'offset': Param('int'), 'stream': Param('none')},
     'Peek': {'subcon': Sub()},
     'OffsettedEnd': {'subcon': Sub(), 'endoffset': Param('int')},
@@ -134,7 +134,7 @@ FIELDS = {
     'NullStripped': {'subcon': Sub(), 'pad': BytesF()},
     'RestreamData': {'subcon': Sub(), 'datafunc': Param('restreamdata')},
     'Transformed': {'subcon': Sub(), 'decodefunc': Func('bytes'), 'decodeamount': F('intornone'), 'encodefunc': Func('bytes'), 'encodeamount': F('intornone')},
-    'Restreamed': {'subcon': Sub(), 'decoder': Func('bytes'), 'decoderunit': Int(), 'encoder': Func('bytes'), 'encoderunit': Int(), 'sizecomputer': F('funcornone')},
+    'Restreamed': {'subcon': Sub(), 'decoder': Func('bytes'), 'decoderunit': Int(), 'encoder': Func('bytes'), 'encoderunit': Int(), 'sizecomputer': F('funcornone', returns='nat')},
     'ProcessXor': {'subcon': Sub(), 'padfunc': Param('xorpad')},
     'ProcessRotateLeft': {'subcon': Sub(), 'amount': Param('int'), 'group': Param('int')},
     'Checksum': {'checksumfield': Sub(), 'hashfunc': Func('dyn'), 'bytesfunc': Func('dyn')},
@@ -161,9 +161,15 @@ def make_field(eng, st, iface, cls, name, f):
         v.returns = f.kw.get('returns')
         return v
     if k == 'param':
+        var = getattr(eng, 'variant', None)
+        if isinstance(var, dict) and name in var:
+            # a concrete parameter value (finite parameter domain enumerated by variants)
+            return VParam(name, f.kw['pkind'], fresh('param_' + name, t.INT), callable_t=t.FALSE, const=VInt(I(var[name])))
         return VParam(name, f.kw['pkind'], fresh('param_' + name, t.INT))
     if k == 'sublist':
-        return VSubList(fresh('subcons', t.INT))
+        v = VSubList(fresh('subcons', t.INT))
+        iface.current_sublist = v.ident
+        return v
     if k == 'bytes':
         if 'length' in f.kw:
             return eng.fresh_bytes(st, 'self_' + name, ln=I(f.kw['length']))
@@ -186,7 +192,7 @@ def make_field(eng, st, iface, cls, name, f):
         return VDyn(t.app('VOpq', t.VAL, fresh('opq_' + name, t.INT)))
     if k == 'intornone':
         v = fresh('self_' + name, t.VAL)
-        st.assume(t.or_(t.app('(_ is VNone)', t.BOOL, v), t.app('(_ is VInt)', t.BOOL, v)))
+        st.assume(t.or_(t.app('(_ is VNone)', t.BOOL, v), t.and_(t.app('(_ is VInt)', t.BOOL, v), t.ge(t.app('ival', t.INT, v), t.ZERO))))
         return VDyn(v)
     if k == 'func' or k == 'funcornone':
         ident = fresh('fn_' + name, t.INT)
@@ -198,6 +204,15 @@ def make_field(eng, st, iface, cls, name, f):
     if k in ('fmt', 'fmtlen'):
         return iface.fmt_field(eng, st, k)
     raise KeyError(k)
+
+
+class VariantDict(dict):
+    def __str__(self):
+        return ','.join('%s=%s' % kv for kv in sorted(self.items()))
+    __repr__ = __str__
+
+    def __hash__(self):
+        return hash(str(self))
 
 
 def class_fields(src, cls):
@@ -215,7 +230,8 @@ def method_setup(cls, extra_fields=None):
         if extra_fields:
             table.update(extra_fields)
         iface.fmt_cache = {}
-        for name, f in table.items():
+        iface.current_sublist = None
+        for name, f in sorted(table.items(), key=lambda kv: kv[1].kind != 'sublist'):
             fields[name] = make_field(eng, st, iface, cls, name, f)
         selfv = VObj(cls, fields, ident=fresh('self', t.INT))
         args = {}
@@ -308,6 +324,9 @@ def generic_cases(kind, result_kind=None):
         return out
 
     def raise_ensures(pre, post):
+        if getattr(post.exc, 'user', False):
+            # raised by a user-supplied callable (outside every property): nothing is claimed about it
+            return heap_frame(pre, post)
         base = 'SizeofError' if kind == 'sizeof' else 'ConstructError'
         tag = ('C05',) if kind == 'sizeof' else ('C06',)
         ce = post.eng.exc_sub_term(post.exc.cls, base)
@@ -327,6 +346,37 @@ def generic_cases(kind, result_kind=None):
     return [Case('returns', 'return', lambda pre: t.TRUE, ensures=ret_ensures, rkind=rk_dyn, modifies=mods),
             Case('raises', 'raise', lambda pre: t.TRUE, ensures=raise_ensures, modifies=mods)]
 
+
+def _focused_inv(L):
+    """once the member named by parsebuildfrom has been processed, `finalret` is bound"""
+    iface = L.eng.models.interface
+    pbf = L['parsebuildfrom']
+    if not isinstance(pbf, VDyn) or iface.current_sublist is None:
+        return []
+    w = t.app('member_index', t.INT, iface.current_sublist, pbf.t)
+    return [('selected-member-seen-implies-finalret-bound', t.implies(t.gt(L.k, w), L.bound('finalret')))]
+
+
+def _union_inv(L):
+    """forwards holds an entry for every member index processed so far and for every (non-empty) member name"""
+    iface = L.eng.models.interface
+    fw = L.obj('forwards')
+    if fw.items is not None:
+        return []          # still the empty literal at loop entry: nothing to state
+    sl = iface.current_sublist
+    j = t.var('j!', t.INT)
+    name = t.app('sc_name', t.VAL, t.app('sl_at', t.INT, sl, j))
+    return [('index-entries', t.forall([j], t.implies(t.and_(t.le(t.ZERO, j), t.lt(j, L.k)), t.T(t.BOOL, 'select', (fw.has, t.app('VInt', t.VAL, j)))),
+                                       pats=[[t.app('VInt', t.VAL, j)]])),
+            ('name-entries', t.forall([j], t.implies(t.and_(t.le(t.ZERO, j), t.lt(j, L.k), t.app('truthy', t.BOOL, name)), t.T(t.BOOL, 'select', (fw.has, name))),
+                                      pats=[[name]]))]
+
+
+CLASS_LOOPS = {
+    'construct.core:Union._parse': {'for (i, sc) in enumerate(self.subcons)': LoopSpec(_union_inv, tags=('C06',))},
+    'construct.core:FocusedSeq._parse': {'for (i, sc) in enumerate(self.subcons)': LoopSpec(_focused_inv, tags=('C06',))},
+    'construct.core:FocusedSeq._build': {'for (i, sc) in enumerate(self.subcons)': LoopSpec(_focused_inv, tags=('C06',))},
+}
 
 KIND_OF = {'_parse': 'parse', '_parsereport': 'parse', '_build': 'build', '_sizeof': 'sizeof', '_decode': 'adapt', '_encode': 'encode',
            '_validate': 'adapt', '_actualsize': 'parse'}
@@ -366,18 +416,25 @@ def generic_contracts(src):
             abstract = is_abstract(src.find(qual))
             c = FnContract(qual, generic_cases(kind, RESULT_KIND.get(cls) if m in ('_parse', '_parsereport') else None), setup=method_setup(cls), stream_models=('bytesio', 'adv') if kind in ('parse', 'build') else ('bytesio',),
                            tags=('C05', 'C06', 'C17', 'C18'))
-            c.iface = dict(sub_seq=False, params_total=(kind != 'sizeof'))
+            c.iface = dict(sub_seq=False, params_total=(kind != 'sizeof'), nat_params=(kind == 'sizeof'))
             if (cls, m) in ADAPTER_REQUIRES:
                 c.requires = ADAPTER_REQUIRES[(cls, m)]
             c.generic = True
             c.modifies_heap = True
             c.kind = kind
-            c.default_loop = LoopSpec(lambda L: [], tags=('C06',))
+            pm = () if kind in ('parse', 'adapt', 'sizeof') else None
+            c.default_loop = LoopSpec(lambda L: [], tags=('C06',), modifies=pm)
+            if qual in CLASS_LOOPS:
+                c.loops = {k2: LoopSpec(v2.inv, tags=v2.tags, modifies=pm) for k2, v2 in CLASS_LOOPS[qual].items()}
             if abstract:
                 # subclass responsibility: used at call sites as the interface clause, never verified against the raise-stub
                 c.setup = None
                 c.abstract = True
             if cls == 'FormatField':
                 c.variants = [e + f for e in '<>=' for f in 'BHLQbhlqefd?']
+            if cls == 'ProcessRotateLeft' and m in ('_parse', '_build'):
+                # one representative per branch (no-op, single-byte table, whole-byte permutation, bit pairs, negative, over-wide);
+                # the full parameter domain of C15 is enumerated by the functional contract
+                c.variants = [VariantDict(amount=a, group=g) for a, g in ((0, 1), (3, 1), (8, 2), (16, 4), (5, 2), (-3, 3), (13, 4), (70, 8), (1, 0))]
             out.append(c)
     return out
